@@ -147,7 +147,10 @@ pub fn run(args: &[String]) {
     let mut r = Rng::new(seed);
     match which {
         "c02" => c02(&mut r, &fonts, n, &mut tr),
-        "c04" => c04(&mut r, &fonts, n, &mut tr),
+        "c04" => {
+            C04_REDIST.store(arg_u64(args, "--redist", 2) as u8, std::sync::atomic::Ordering::Relaxed);
+            c04(&mut r, &fonts, n, &mut tr)
+        }
         "c15" => c15(&mut r, &fonts, n, &mut tr),
         "c03" => c03(&mut r, &fonts, n, &mut tr),
         "c05" => c05(&mut r, &fonts, n, &mut tr),
@@ -162,7 +165,10 @@ pub fn run(args: &[String]) {
             let mut cnt = Counters::default();
             match prop {
                 "c02" => check_c02(&fi, &req, &mut cnt),
-                "c04" => check_c04(&fi, &req, &mut cnt),
+                "c04" => {
+                    C04_REDIST.store(arg_u64(args, "--redist", 2) as u8, std::sync::atomic::Ordering::Relaxed);
+                    check_c04(&fi, &req, &mut cnt)
+                }
                 "c15" => check_c15(&fi, &req, &mut Rng::new(seed), &mut cnt),
                 "c03" => check_c03(&fi, &req, &mut cnt),
                 "c01" => check_c01(&fi.path, &fi.data, &req, &mut cnt),
@@ -191,7 +197,7 @@ impl Counters {
     }
     pub fn fail(&mut self, prop: &str, kind: &str, font: &str, req: &Req, detail: &str) {
         self.fails += 1;
-        if self.fails <= 12 {
+        if self.fails <= 12 || std::env::var("RBV_ALL_FAILS").is_ok() {
             println!("fail {} {} font={} req=[{}] {}", prop, kind, font, fmt_req(req), detail);
         }
     }
@@ -243,6 +249,18 @@ pub fn check_c02(fi: &FontInfo, req: &Req, cnt: &mut Counters) {
 
 fn c02(r: &mut Rng, fonts: &[FontInfo], n: u64, tr: &mut Option<std::fs::File>) {
     let mut cnt = Counters::default();
+    // dedicated pass: fonts with legacy kern/kerx x four directions x kerning on/off (reversal pairing)
+    for fi in fonts.iter().filter(|f| f.has_kern) {
+        for k in 0..48u32 {
+            let mut req = gen_req(r, fi, 12);
+            req.dir = Some(DIRS[(k % 4) as usize]);
+            req.features = if k % 8 < 4 { vec!["kern=0".into()] } else { vec![] };
+            req.level = (k % 2) as u8;
+            trace(tr, &format!("kern {} [{}]", fi.path, fmt_req(&req)));
+            check_c02(fi, &req, &mut cnt);
+            cnt.bump("kern_font_cases");
+        }
+    }
     for i in 0..n {
         let fi = &fonts[r.below(fonts.len() as u64) as usize];
         let mut req = gen_req(r, fi, 24);
@@ -258,7 +276,10 @@ fn c02(r: &mut Rng, fonts: &[FontInfo], n: u64, tr: &mut Option<std::fs::File>) 
 
 // ------------------------------------------------------------------------------------------ C04
 
+pub static C04_REDIST: std::sync::atomic::AtomicU8 = std::sync::atomic::AtomicU8::new(2); // 0 = flags only, 1 = redistribution only, 2 = both
+
 pub fn check_c04(fi: &FontInfo, req0: &Req, cnt: &mut Counters) {
+    let mode = C04_REDIST.load(std::sync::atomic::Ordering::Relaxed);
     // all four subsets of the two PRODUCE flags
     for sub in 0..4u32 {
         let concat = sub & 1 != 0;
@@ -271,6 +292,9 @@ pub fn check_c04(fi: &FontInfo, req0: &Req, cnt: &mut Counters) {
         for g in &out {
             if g.flags != 0 {
                 any_flag = true;
+            }
+            if mode == 1 {
+                continue;
             }
             if g.flags & !7 != 0 {
                 cnt.fail("C04", "undefined-flag-bit", &fi.path, &req, &format!("flags={} out={}", g.flags, fmt_g(&out)));
@@ -293,7 +317,7 @@ pub fn check_c04(fi: &FontInfo, req0: &Req, cnt: &mut Counters) {
         let mut per: std::collections::BTreeMap<u32, u32> = std::collections::BTreeMap::new();
         for g in &out {
             if let Some(f) = per.get(&g.cluster) {
-                if *f != g.flags && req.level < 2 {
+                if *f != g.flags && req.level < 2 && mode != 1 {
                     cnt.fail("C04", "flags-not-uniform-in-cluster", &fi.path, &req, &format!("cluster={} out={}", g.cluster, fmt_g(&out)));
                     return;
                 }
@@ -311,7 +335,7 @@ pub fn check_c04(fi: &FontInfo, req0: &Req, cnt: &mut Counters) {
             cnt.bump("concat_seen");
         }
         // redistribution experiment (property's second sentence), only with concat requested, level 0/1
-        if concat && req.level < 2 && out.len() > 1 {
+        if concat && req.level < 2 && out.len() > 1 && mode != 0 {
             redistribute(fi, &req, &out, cnt);
         }
     }
@@ -553,6 +577,8 @@ fn c03(r: &mut Rng, fonts: &[FontInfo], n: u64, tr: &mut Option<std::fs::File>) 
         let fi = &fonts[r.below(fonts.len() as u64) as usize];
         let mut req = gen_req(r, fi, 14);
         req.level = r.below(2) as u8;
+        req.pre.clear();
+        req.post.clear();
         // one cluster per character or repeats; keep numbering monotone
         trace(tr, &format!("{} {} [{}]", i, fi.path, fmt_req(&req)));
         check_c03(fi, &req, &mut cnt);
